@@ -9,19 +9,153 @@ package risc
 
 // wfZero: the context reads the zero register as 0 (context invariant
 // maintained because every Run yields Register == Zero ==> RegisterValue == 0).
-//@ spec func wfZero(ctx *Context, f Forward) bool = ctx != nil && registerRead(ctx, f, Zero, 0) == 0 && (forall s int32 :: registerRead(ctx, f, Zero, s) == 0)
+//@ spec func wfZero(ctx *Context, f Forward) bool = ctx != nil && (ctx.rat ==> wfCtxRAT(ctx)) && registerRead(ctx, f, Zero, 0) == 0 && (forall s int32 :: registerRead(ctx, f, Zero, s) == 0)
 
+// registerRead: precedence forward > uncommitted (transaction map / rename
+// table) > committed / register file (C04); a read on behalf of tag t != 0
+// never returns a value written with a younger tag (C15).
 //@ func registerRead
 //@   mode int
 //@   pure
-//@   requires ctx != nil
+//@   requires ctx != nil && (ctx.rat ==> wfCtxRAT(ctx))
 //@   ensures reg == forward.Register ==> result == forward.Value
+//@   ensures reg != forward.Register && !ctx.rat && reg in ctx.Transaction ==> result == ctx.Transaction[reg].value
+//@   ensures reg != forward.Register && !ctx.rat && !(reg in ctx.Transaction) ==> result == ctx.Registers[reg]
+//@   ensures reg != forward.Register && ctx.rat && sequenceID == 0 && comp.has(ctx.transactionRAT, reg) ==> result == comp.newest(ctx.transactionRAT, reg).value
+//@   ensures reg != forward.Register && ctx.rat && sequenceID == 0 && !comp.has(ctx.transactionRAT, reg) ==> result == (comp.has(ctx.committedRAT, reg) ? comp.newest(ctx.committedRAT, reg) : 0)
+//@   ensures forall i int :: reg != forward.Register && ctx.rat && sequenceID != 0 && comp.validSlot(ctx.transactionRAT, reg, i) && comp.slot(ctx.transactionRAT, reg, i).sequenceID <= sequenceID && (forall i2 int :: comp.validSlot(ctx.transactionRAT, reg, i2) && comp.slot(ctx.transactionRAT, reg, i2).sequenceID <= sequenceID ==> comp.rank(ctx.transactionRAT, reg, i) <= comp.rank(ctx.transactionRAT, reg, i2)) ==> result == comp.slot(ctx.transactionRAT, reg, i).value
+//@   ensures reg != forward.Register && ctx.rat && sequenceID != 0 && !(exists i int :: comp.validSlot(ctx.transactionRAT, reg, i) && comp.slot(ctx.transactionRAT, reg, i).sequenceID <= sequenceID) ==> result == (comp.has(ctx.committedRAT, reg) ? comp.newest(ctx.committedRAT, reg) : 0)
+//@   ensures reg != forward.Register && ctx.rat && sequenceID != 0 ==> (exists i int :: comp.validSlot(ctx.transactionRAT, reg, i) && comp.slot(ctx.transactionRAT, reg, i).sequenceID <= sequenceID && result == comp.slot(ctx.transactionRAT, reg, i).value) || result == (comp.has(ctx.committedRAT, reg) ? comp.newest(ctx.committedRAT, reg) : 0)
 //@   assigns nothing
 
 //@ func IsRegisterChange
 //@   ensures register == Zero ==> (result == Zero && result1 == 0)
 //@   ensures register != Zero ==> (result == register && result1 == value)
 //@   assigns nothing
+
+// ---------------------------------------------------------------- Context: speculative register state (C15)
+// Transaction map: one slot per register (the property's hypothesis for the
+// map is "at most one uncommitted write per register"; with more, the slot
+// holds the last one written).
+
+//@ func (*Context).WriteRegister
+//@   mode int
+//@   requires ctx.Registers != nil
+//@   ensures exe.Register in ctx.Registers && ctx.Registers[exe.Register] == exe.RegisterValue
+//@   ensures forall r RegisterType :: r != exe.Register ==> (r in ctx.Registers) == old(r in ctx.Registers) && ctx.Registers[r] == old(ctx.Registers[r])
+//@   assigns ctx.Registers[*]
+
+//@ func (*Context).TransactionWriteRegister
+//@   mode int
+//@   requires ctx.Transaction != nil
+//@   ensures exe.Register in ctx.Transaction && ctx.Transaction[exe.Register].sequenceID == sequenceID && ctx.Transaction[exe.Register].value == exe.RegisterValue
+//@   ensures forall r RegisterType :: r != exe.Register ==> (r in ctx.Transaction) == old(r in ctx.Transaction) && ctx.Transaction[r] == old(ctx.Transaction[r])
+//@   assigns ctx.Transaction[*]
+
+// Commit: every register with an uncommitted write takes that write's value,
+// every other register is unchanged, nothing stays uncommitted. Proved for
+// every map iteration order.
+//@ func (*Context).Commit
+//@   mode int
+//@   requires ctx.Registers != nil && ctx.Transaction != nil
+//@   ensures forall r RegisterType :: old(r in ctx.Transaction) ==> r in ctx.Registers && ctx.Registers[r] == old(ctx.Transaction[r].value)
+//@   ensures forall r RegisterType :: !old(r in ctx.Transaction) ==> (r in ctx.Registers) == old(r in ctx.Registers) && ctx.Registers[r] == old(ctx.Registers[r])
+//@   ensures ctx.Transaction != nil && len(ctx.Transaction) == 0 && (forall r RegisterType :: !(r in ctx.Transaction))
+//@   assigns ctx.Registers[*], ctx.Transaction
+//@   loop 0: invariant forall r RegisterType :: visited(r) ==> old(r in ctx.Transaction) && r in ctx.Registers && ctx.Registers[r] == old(ctx.Transaction[r].value)
+//@   loop 0: invariant forall r RegisterType :: !visited(r) ==> (r in ctx.Registers) == old(r in ctx.Registers) && ctx.Registers[r] == old(ctx.Registers[r])
+
+// Rollback(s): only writes older than s (tag < s) take effect.
+//@ func (*Context).Rollback
+//@   mode int
+//@   requires ctx.Registers != nil && ctx.Transaction != nil
+//@   ensures forall r RegisterType :: old(r in ctx.Transaction) && old(ctx.Transaction[r].sequenceID) < sequenceID ==> r in ctx.Registers && ctx.Registers[r] == old(ctx.Transaction[r].value)
+//@   ensures forall r RegisterType :: !(old(r in ctx.Transaction) && old(ctx.Transaction[r].sequenceID) < sequenceID) ==> (r in ctx.Registers) == old(r in ctx.Registers) && ctx.Registers[r] == old(ctx.Registers[r])
+//@   ensures ctx.Transaction != nil && len(ctx.Transaction) == 0 && (forall r RegisterType :: !(r in ctx.Transaction))
+//@   assigns ctx.Registers[*], ctx.Transaction
+//@   loop 0: invariant forall r RegisterType :: visited(r) ==> old(r in ctx.Transaction)
+//@   loop 0: invariant forall r RegisterType :: visited(r) && old(ctx.Transaction[r].sequenceID) < sequenceID ==> r in ctx.Registers && ctx.Registers[r] == old(ctx.Transaction[r].value)
+//@   loop 0: invariant forall r RegisterType :: !(visited(r) && old(ctx.Transaction[r].sequenceID) < sequenceID) ==> (r in ctx.Registers) == old(r in ctx.Registers) && ctx.Registers[r] == old(ctx.Registers[r])
+
+// Rename table (RAT) level. comp.RAT is seen only through its abstract view
+// (comp.has / newest / slot / validSlot / rank / wfRAT are opaque here; their
+// meaning is established by the contracts verified in package comp).
+// committedRAT holds the architectural value of a register as its newest
+// entry; transactionRAT holds the uncommitted writes of a register in ring
+// order (rank 0 = most recent). "Youngest by tag" coincides with "most
+// recently written" when tags were written in non-decreasing order per
+// register (monoTags); out-of-order tags are the known finding F11.
+
+//@ spec func wfCtxRAT(ctx *Context) bool = ctx != nil && ctx.committedRAT != nil && ctx.transactionRAT != nil && comp.wfRAT(ctx.committedRAT) && comp.wfRAT(ctx.transactionRAT) \
+//@    && ctx.committedRAT.idx != ctx.transactionRAT.idx && ctx.committedRAT.wrapped != ctx.transactionRAT.wrapped
+//@ spec func monoTags(ctx *Context) bool = forall r RegisterType, i int, i2 int :: comp.validSlot(ctx.transactionRAT, r, i) && comp.validSlot(ctx.transactionRAT, r, i2) && comp.rank(ctx.transactionRAT, r, i) <= comp.rank(ctx.transactionRAT, r, i2) ==> comp.slot(ctx.transactionRAT, r, i).sequenceID >= comp.slot(ctx.transactionRAT, r, i2).sequenceID
+
+//@ func (*Context).TransactionRATWrite
+//@   mode int
+//@   reveal
+//@   requires wfCtxRAT(ctx)
+//@   ensures wfCtxRAT(ctx)
+//@   ensures comp.has(ctx.transactionRAT, exe.Register) && comp.newest(ctx.transactionRAT, exe.Register).sequenceID == sequenceID && comp.newest(ctx.transactionRAT, exe.Register).value == exe.RegisterValue
+//@   ensures forall r RegisterType :: r != exe.Register ==> comp.has(ctx.transactionRAT, r) == old(comp.has(ctx.transactionRAT, r)) && comp.newest(ctx.transactionRAT, r) == old(comp.newest(ctx.transactionRAT, r))
+//@   ensures forall r RegisterType, i int :: r != exe.Register ==> comp.slot(ctx.transactionRAT, r, i) == old(comp.slot(ctx.transactionRAT, r, i)) && comp.validSlot(ctx.transactionRAT, r, i) == old(comp.validSlot(ctx.transactionRAT, r, i)) && comp.rank(ctx.transactionRAT, r, i) == old(comp.rank(ctx.transactionRAT, r, i))
+//@   ensures forall r RegisterType :: comp.has(ctx.committedRAT, r) == old(comp.has(ctx.committedRAT, r)) && comp.newest(ctx.committedRAT, r) == old(comp.newest(ctx.committedRAT, r))
+//@   assigns ctx.transactionRAT.idx[*], ctx.transactionRAT.values[*], ctx.transactionRAT.wrapped[*], all []transactionUnit
+
+// RATCommit: every register with uncommitted writes takes the value of its
+// most recent write, every other register's architectural value is
+// unchanged, nothing stays uncommitted. Under monoTags the most recent write
+// is the one with the greatest tag (last postcondition).
+//@ func (*Context).RATCommit
+//@   mode int
+//@   requires wfCtxRAT(ctx)
+//@   ensures wfCtxRAT(ctx)
+//@   ensures forall r RegisterType :: old(comp.has(ctx.transactionRAT, r)) ==> comp.has(ctx.committedRAT, r) && comp.newest(ctx.committedRAT, r) == old(comp.newest(ctx.transactionRAT, r).value)
+//@   ensures forall r RegisterType :: !old(comp.has(ctx.transactionRAT, r)) ==> comp.has(ctx.committedRAT, r) == old(comp.has(ctx.committedRAT, r)) && comp.newest(ctx.committedRAT, r) == old(comp.newest(ctx.committedRAT, r))
+//@   ensures forall r RegisterType :: !comp.has(ctx.transactionRAT, r)
+//@   assigns ctx.transactionRAT, ctx.committedRAT.idx[*], ctx.committedRAT.values[*], ctx.committedRAT.wrapped[*], all []int32
+//@   loop 0: invariant comp.wfRAT(ctx.committedRAT) && ctx.transactionRAT == old(ctx.transactionRAT) && ctx.committedRAT == old(ctx.committedRAT)
+//@   loop 0: invariant forall r RegisterType :: visited(r) ==> old(comp.has(ctx.transactionRAT, r)) && comp.has(ctx.committedRAT, r) && comp.newest(ctx.committedRAT, r) == old(comp.newest(ctx.transactionRAT, r).value)
+//@   loop 0: invariant forall r RegisterType :: !visited(r) ==> comp.has(ctx.committedRAT, r) == old(comp.has(ctx.committedRAT, r)) && comp.newest(ctx.committedRAT, r) == old(comp.newest(ctx.committedRAT, r))
+
+// RATRollback(s): every register takes the value of its most recent
+// uncommitted write older than s (tag < s); registers without such a write
+// keep their architectural value; nothing stays uncommitted.
+//@ func (*Context).RATRollback
+//@   mode int
+//@   requires wfCtxRAT(ctx)
+//@   ensures wfCtxRAT(ctx)
+//@   ensures forall r RegisterType, i int :: old(comp.validSlot(ctx.transactionRAT, r, i)) && old(comp.slot(ctx.transactionRAT, r, i).sequenceID) < sequenceID && (forall i2 int :: old(comp.validSlot(ctx.transactionRAT, r, i2)) && old(comp.slot(ctx.transactionRAT, r, i2).sequenceID) < sequenceID ==> old(comp.rank(ctx.transactionRAT, r, i)) <= old(comp.rank(ctx.transactionRAT, r, i2))) ==> comp.has(ctx.committedRAT, r) && comp.newest(ctx.committedRAT, r) == old(comp.slot(ctx.transactionRAT, r, i).value)
+//@   ensures forall r RegisterType :: !(exists i int :: old(comp.validSlot(ctx.transactionRAT, r, i)) && old(comp.slot(ctx.transactionRAT, r, i).sequenceID) < sequenceID) ==> comp.has(ctx.committedRAT, r) == old(comp.has(ctx.committedRAT, r)) && comp.newest(ctx.committedRAT, r) == old(comp.newest(ctx.committedRAT, r))
+//@   ensures forall r RegisterType :: !comp.has(ctx.transactionRAT, r)
+//@   assigns ctx.transactionRAT, ctx.committedRAT.idx[*], ctx.committedRAT.values[*], ctx.committedRAT.wrapped[*], all []int32
+//@   loop 0: invariant comp.wfRAT(ctx.committedRAT) && ctx.transactionRAT == old(ctx.transactionRAT) && ctx.committedRAT == old(ctx.committedRAT)
+//@   loop 0: invariant forall r RegisterType, i int :: visited(r) && old(comp.validSlot(ctx.transactionRAT, r, i)) && old(comp.slot(ctx.transactionRAT, r, i).sequenceID) < sequenceID && (forall i2 int :: old(comp.validSlot(ctx.transactionRAT, r, i2)) && old(comp.slot(ctx.transactionRAT, r, i2).sequenceID) < sequenceID ==> old(comp.rank(ctx.transactionRAT, r, i)) <= old(comp.rank(ctx.transactionRAT, r, i2))) ==> comp.has(ctx.committedRAT, r) && comp.newest(ctx.committedRAT, r) == old(comp.slot(ctx.transactionRAT, r, i).value)
+//@   loop 0: invariant forall r RegisterType :: visited(r) ==> (exists i int :: old(comp.validSlot(ctx.transactionRAT, r, i)) && old(comp.slot(ctx.transactionRAT, r, i).sequenceID) < sequenceID)
+//@   loop 0: invariant forall r RegisterType :: !visited(r) ==> comp.has(ctx.committedRAT, r) == old(comp.has(ctx.committedRAT, r)) && comp.newest(ctx.committedRAT, r) == old(comp.newest(ctx.committedRAT, r))
+
+//@ func (*Context).InitRAT
+//@   mode int
+//@   reveal
+//@   requires wfCtxRAT(ctx) && ctx.Registers != nil
+//@   ensures wfCtxRAT(ctx)
+//@   ensures forall r RegisterType :: r in ctx.Registers ==> comp.has(ctx.committedRAT, r) && comp.newest(ctx.committedRAT, r) == ctx.Registers[r]
+//@   ensures forall r RegisterType :: !(r in ctx.Registers) ==> comp.has(ctx.committedRAT, r) == old(comp.has(ctx.committedRAT, r)) && comp.newest(ctx.committedRAT, r) == old(comp.newest(ctx.committedRAT, r))
+//@   assigns ctx.committedRAT.idx[*], ctx.committedRAT.values[*], ctx.committedRAT.wrapped[*], all []int32
+//@   loop 0: invariant comp.wfRAT(ctx.committedRAT) && comp.wfRAT(ctx.transactionRAT) && ctx.committedRAT == old(ctx.committedRAT) && ctx.Registers == old(ctx.Registers)
+//@   loop 0: invariant forall r RegisterType :: visited(r) ==> r in ctx.Registers && comp.has(ctx.committedRAT, r) && comp.newest(ctx.committedRAT, r) == ctx.Registers[r]
+//@   loop 0: invariant forall r RegisterType :: !visited(r) ==> comp.has(ctx.committedRAT, r) == old(comp.has(ctx.committedRAT, r)) && comp.newest(ctx.committedRAT, r) == old(comp.newest(ctx.committedRAT, r))
+
+//@ func (*Context).RATFlush
+//@   mode int
+//@   requires wfCtxRAT(ctx) && ctx.Registers != nil
+//@   ensures forall r RegisterType :: comp.has(ctx.committedRAT, r) ==> r in ctx.Registers && ctx.Registers[r] == comp.newest(ctx.committedRAT, r)
+//@   ensures forall r RegisterType :: !comp.has(ctx.committedRAT, r) ==> (r in ctx.Registers) == old(r in ctx.Registers) && ctx.Registers[r] == old(ctx.Registers[r])
+//@   assigns ctx.Registers[*]
+//@   loop 0: invariant ctx.Registers == old(ctx.Registers) && fresh(_range0)
+//@   loop 0: invariant forall r RegisterType :: (r in _range0) == comp.has(ctx.committedRAT, r)
+//@   loop 0: invariant forall r RegisterType :: comp.has(ctx.committedRAT, r) ==> _range0[r] == comp.newest(ctx.committedRAT, r)
+//@   loop 0: invariant forall r RegisterType :: visited(r) ==> comp.has(ctx.committedRAT, r) && r in ctx.Registers && ctx.Registers[r] == comp.newest(ctx.committedRAT, r)
+//@   loop 0: invariant forall r RegisterType :: !visited(r) ==> (r in ctx.Registers) == old(r in ctx.Registers) && ctx.Registers[r] == old(ctx.Registers[r])
 
 // ---- generated by /verif/contracts/gen_risc.py from the RV32IM table ----
 
